@@ -613,7 +613,8 @@ def parse_register_report(text, title="REGISTER"):
                 cur["rows"].append((tok[0], tok[1], tok[2], tok[3]))
             else:
                 cur["rows"].append(("?", ln, "?", "?"))
-        elif ln and set(ln) == {"-"}:
+        elif (ln and set(ln) == {"-"}) or (ln == "" and not cur["rows"]):
+            # an entry ends with a rule as wide as its widest row (an entry without rows: an empty line)
             entries.append(cur)
             cur = None
         else:
